@@ -700,7 +700,9 @@ func (c *Cluster) Enabled() []uint32 {
 			continue
 		}
 		for _, cm := range modes {
-			if cf.UseTick && (cf.MaxTick == 0 || c.used.tick < cf.MaxTick) {
+			// a leader's tick (heartbeat, check-quorum) is always in the alphabet: the timeout
+			// macro only exists for non-leaders
+			if (cf.UseTick || (cf.UseTimeout && v.State == raft.StateLeader)) && (cf.MaxTick == 0 || c.used.tick < cf.MaxTick) {
 				evs = append(evs, Ev(EvTick, int(nd.id), 0, cm))
 			}
 			if cf.UseTimeout && v.State != raft.StateLeader && len(v.Voters) > 0 {
